@@ -49,6 +49,10 @@ type c16Opts struct {
 	JWKSFetch  bool
 	Redis      bool
 	Logout     bool
+	// Idle: idle session time-out (seconds) configured on the filter; Later: the threads run this much wall-clock
+	// time after the world (and its stores) were built
+	Idle  int
+	Later time.Duration
 }
 
 type c16World struct {
@@ -101,6 +105,10 @@ func newC16World(o c16Opts) *c16World {
 	}
 	if o.Logout {
 		oc.Logout = &oidcv1.LogoutConfig{Path: "/logout", RedirectUri: base + "/logout"}
+	}
+	if o.Idle > 0 {
+		oc.IdleSessionTimeout = uint32(o.Idle)
+		oc.AbsoluteSessionTimeout = uint32(o.Idle) * 2
 	}
 	tlsHosts := map[string]*tls.Certificate{}
 	if o.CAFile {
@@ -449,6 +457,9 @@ func c16Scenario(name string, o c16Opts, kinds []string, bound int) schedx.Scena
 					}
 				}
 			}
+			if o.Later > 0 {
+				vtime.Shift(o.Later) // the stores and sessions above date from "then"; the threads run "now"
+			}
 			return &schedx.Instance{Threads: bodies, Close: func() { w.Close(); vsched.Quiesce() },
 				Finish: func(x *schedx.Exec) (string, []schedx.Violation) {
 					vsched.Quiesce()
@@ -494,6 +505,7 @@ func c16Scenarios(tier string) []schedx.Scenario {
 			c16Scenario("S7 proxy: callback||refresh", c16Opts{Proxy: true}, []string{"callback", "refresh"}, b),
 			c16Scenario("S6 redis: callback||callback", c16Opts{Redis: true, Logout: true}, []string{"callback", "callback"}, b),
 			c16Scenario("S6 redis: callback||refresh", c16Opts{Redis: true, Logout: true}, []string{"callback", "refresh"}, b),
+			c16Scenario("S8 session time-outs, two minutes after start-up: nocookie||callback", c16Opts{Logout: true, Idle: 3600, Later: 2 * time.Minute}, []string{"nocookie", "callback"}, b),
 		}
 	}
 	scs := mk(1) // function-entry + lock points, one pre-emption
